@@ -3,9 +3,10 @@
    pooling switch, schedule of sync.Pool choices; transform memo switch; evaluator-side caches)
    is an explicit argument of the pipeline model; the theorems quantify over ALL pairs of hidden
    states satisfying the invariant, all schemas inside the guard, all envelopes and record streams. *)
-From Coq Require Import List NArith Bool.
+From Coq Require Import List NArith Bool Lia.
 From Coq.Strings Require Import Byte.
 Import ListNotations.
+From OV Require Import Model.Value Model.XPathFrag Model.Decl Model.Eval Proofs.PipelineC02.
 From OV Require Import Base.Bytes Base.Tree Model.Pipeline Proofs.Pipeline Proofs.PipelineCache Proofs.PipelineInst Proofs.PipelineCanon.
 
 Section C13.
@@ -54,6 +55,37 @@ Section C13.
     Inv (after schema V C eval marshal marshal_err_cont H canon h s ctx us).
   Proof. exact (Inv_after schema V C c0 eval marshal marshal_err_cont H canon CInv content_stable_per_id CInv_mono eval_cache_transparent eval_id_renaming eval_caches_sound). Qed.
 End C13.
+
+
+(* ---- with the C02 evaluator: no evaluator hypothesis left ---------------------------------------- *)
+(* eval_c02 (Proofs/PipelineC02.v) = Model/Eval.v's ParseNode model run on the document
+   T DocumentNode [] FNone (ctx ++ [record]) at the record, node IDs = the world's IDs by preorder
+   index; eval_cache_transparent / eval_id_renaming are discharged by Proofs/EvalCache.v
+   (caches_invisible_eval, eval_id_renaming, memo_sound_nil).  What remains assumed: the xpath
+   engine returns nodes of the tree it is run on (query_valid); engine, externals and custom
+   functions are deterministic functions (Section variables). *)
+Section C13_C02.
+  Variable query : tree -> bytes -> path -> option (list path).
+  Variable ext : bytes -> option bytes.
+  Variable fsigs : bytes -> option fsig.
+  Variable fcall : tree -> bytes -> path -> list value -> cfres.
+  Variable pcall : tree -> bytes -> path -> cfres.
+  Hypothesis query_valid : forall root x p ps,
+    valid root p -> query root x p = Some ps -> Forall (valid root) ps.
+  Variable marshal : value -> option bytes.
+  Variable marshal_err_cont : bool.
+  Variable H : bytes -> bytes.
+  Variable canon : tree -> bytes.
+  Notation eval_c02 := (eval_c02 query ext fsigs fcall pcall).
+  Notation run_env_c02 := (run_env vdecl value unit eval_c02 marshal marshal_err_cont H canon).
+
+  (* all hidden states: node pool on / off / any contents, any sync.Pool schedule, any counter
+     value, transform memo on / off; all declaration trees (ill-formed ones fail every record in
+     both runs), all envelopes, all record streams *)
+  Theorem caches_invisible_c02 : forall h h' s ctx us,
+    Inv0 h -> Inv0 h' -> run_env_c02 h s ctx us = run_env_c02 h' s ctx us.
+  Proof. exact (caches_invisible_c02 query ext fsigs fcall pcall query_valid marshal marshal_err_cont H canon). Qed.
+End C13_C02.
 
 (* Node pool facts the proof rests on (the pipeline-level counterpart of C12's fresh_blank /
    pool_disjoint_nodup / ids_unique), proved here for the allocator model of Model/Pipeline.v:
@@ -156,3 +188,23 @@ Example c13_instance_runs_agree :
   t_run h_warm OnRecord t_ctx t_units = t_run h_fresh OnRecord t_ctx t_units /\
   t_run h_off OnRecord t_ctx t_units = t_run h_fresh OnRecord t_ctx t_units.
 Proof. split; vm_compute; reflexivity. Qed.
+
+(* Non-vacuity of the C02-instantiated theorems: an engine meeting query_valid (the self axis) and
+   two hidden states meeting Inv0 (fresh process; advanced counter, pooled nodes, a sync.Pool
+   schedule, memo off). *)
+Example c13_c02_hypotheses_satisfiable :
+  (forall (root : tree) (x : bytes) (p : path) ps,
+     valid root p -> (fun (_ : tree) (_ : bytes) (q : path) => Some [q]) root x p = Some ps ->
+     Forall (valid root) ps) /\
+  Inv0 (mkHid (mkA 0%N [] true []) true tt) /\
+  Inv0 (mkHid (mkA 9%N [5%N; 3%N; 8%N] true [1; 7; 0]) false tt).
+Proof.
+  split; [|split].
+  - intros root x p ps Hv E. inversion E; subst. constructor; [exact Hv|constructor].
+  - exists []. unfold AInv; simpl. repeat split; try constructor. intros i [].
+  - exists [2%N]. unfold AInv; simpl. split; [|split; [|split]].
+    + repeat constructor; simpl; intuition congruence.
+    + repeat constructor; simpl; lia.
+    + repeat constructor; simpl; lia.
+    + intros i [<-|[]]; simpl; intuition congruence.
+Qed.
